@@ -13,3 +13,29 @@ pub mod glue;
 
 #[cfg(kani)]
 mod proofs;
+
+/// Native replay of a solver counterexample: `cargo kani playback -Z concrete-playback -- replay_from_file`
+/// with VERIF_REPLAY_FILE=<text file: harness name, then one line of decimal bytes per kani::any() value>.
+#[cfg(all(kani, test))]
+mod replay {
+    #[test]
+    fn replay_from_file() {
+        let path = std::env::var("VERIF_REPLAY_FILE").expect("VERIF_REPLAY_FILE");
+        let txt = std::fs::read_to_string(path).unwrap();
+        let mut lines = txt.lines();
+        let name = lines.next().unwrap().trim().to_string();
+        let vals: Vec<Vec<u8>> = lines
+            .map(|l| l.split_whitespace().map(|x| x.parse::<u8>().unwrap()).collect())
+            .collect();
+        let f = crate::proofs::registry::lookup(&name).expect("unknown harness");
+        crate::stubs::reset_all();
+        let r = std::panic::catch_unwind(std::panic::AssertUnwindSafe(|| kani::concrete_playback_run(vals, f)));
+        match r {
+            Ok(()) => println!("REPLAY-RESULT: passed ({name})"),
+            Err(e) => {
+                let msg = e.downcast_ref::<String>().cloned().or_else(|| e.downcast_ref::<&str>().map(|s| s.to_string())).unwrap_or_default();
+                println!("REPLAY-RESULT: reproduced ({name}): {msg}");
+            },
+        }
+    }
+}
